@@ -137,9 +137,11 @@ def dropCR (l : Bytes) : Bytes :=
   | c :: r => if c == cr then r.reverse else l
   | [] => l
 
+/-- `cur` holds the bytes of the line being scanned in REVERSE order (linear time) -/
 def scanLinesGo : Bytes → Bytes → List Bytes
-  | cur, [] => if cur.isEmpty then [] else [dropCR cur]
-  | cur, c :: rest => if c == nl then dropCR cur :: scanLinesGo [] rest else scanLinesGo (cur ++ [c]) rest
+  | cur, [] => if cur.isEmpty then [] else [dropCR cur.reverse]
+  | cur, c :: rest =>
+    if c == nl then dropCR cur.reverse :: scanLinesGo [] rest else scanLinesGo (c :: cur) rest
 
 def scanLines (data : Bytes) : List Bytes := scanLinesGo [] data
 
